@@ -261,7 +261,8 @@ def parent_main(pid, tier, seed):
             lines.append('INCONCLUSIVE property=%s %s' % (pid, m.replace('\n', ' | ')[:1500]))
 
     wall = time.time() - t0
-    exhaustive = {k: all(v) and len(v) == nsh for k, v in exhaustive_done.items()}
+    complete = not merged.counters.get('truncated_shards') and not merged.inconclusive
+    exhaustive = {k: bool(all(v) and complete) for k, v in exhaustive_done.items()}
     cov = dict(
         evaluations=merged.evaluations,
         distinct_nontrivial=len(merged.classes),
